@@ -38,9 +38,13 @@ func (f *FieldUpdater) Validate(m proto.Message) error {
 
 		// are fields mentioned in the update mask actually writable?
 		if f.writableFields != nil {
-			common := f.fullMask()
-			if len(common.Paths) != len(f.updateMask.Paths) {
-				return status.Errorf(codes.InvalidArgument, "%v mentions read-only fields", f.updateMaskFieldName)
+			// every path must have something in common with the writable fields,
+			// comparing path counts is not enough: one path can intersect with many writable paths hiding another that has none
+			for _, path := range f.updateMask.Paths {
+				common := fieldmaskpb.Intersect(f.writableFields, &fieldmaskpb.FieldMask{Paths: []string{path}})
+				if len(common.Paths) == 0 {
+					return status.Errorf(codes.InvalidArgument, "%v mentions read-only fields", f.updateMaskFieldName)
+				}
 			}
 		}
 	}
